@@ -11,7 +11,10 @@ def main():
     seed = int(os.environ.get("VERIF_SEED", "0") or 0)
     if a.replay:
         return replay(a.prop, a.replay)
-    from vlib.common import Report
+    from vlib.common import Report, VERIF
+    # replay files are per run: what an earlier run (on another tree) left behind is removed
+    import shutil
+    shutil.rmtree(os.path.join(VERIF, "replays", a.prop), ignore_errors=True)
     mod = importlib.import_module("props." + a.prop.lower())
     rep = Report(a.prop, a.tier, seed, level=getattr(mod, "LEVEL", "proof"))
     try:
